@@ -239,8 +239,9 @@ def replace_rule(v, p, bad, cls, want_flag, exclude, fallbacks):
             bad("C09.R3", cls + "-evict-not-full", "a resident entry is evicted although the cache is not full")
         return
     ent = outer_enters(p, lambda e: e["q"].endswith("::replace"))
-    if ent:
-        flag = ent[0]["args"][1]
+    flags = [a for a in ent[0]["args"][1:] if isinstance(a, tuple) and a[0] == "const" and a[1] == "bool"] if ent else []
+    if len(flags) == 1:      # the ghost-hit flag is the boolean argument, wherever it sits in the helper's parameter list
+        flag = flags[0]
         if flag != ("const", "bool", "1" if want_flag else "0"):
             bad("C09.R3", cls + "-flag", "replace is called with flag %s at the %s site (must be %s)" % (fmt_val(flag), cls, want_flag), ent[0].get("ln"))
     if len(res_un) != 1:
